@@ -22,6 +22,9 @@ type C01Plan struct {
 	// EarlyShutdown k>0: another goroutine calls Shutdown as soon as the start routine of module k-1 begins, i.e.
 	// while Start is still starting modules
 	EarlyShutdown int `json:"early_shutdown,omitempty"`
+	// Shutdown2: a second caller invokes Shutdown while the first call is in progress; when either call returns no
+	// module is online
+	Shutdown2 bool `json:"shutdown2,omitempty"`
 }
 
 // C01Mod describes one module.
@@ -121,6 +124,7 @@ func genC01(rng *rand.Rand, tier string) *C01Plan {
 		p.EarlyShutdown = 1 + rng.IntN(len(p.Mods))
 		p.Rounds = nil
 	}
+	p.Shutdown2 = rng.IntN(5) == 0
 	return p
 }
 
@@ -417,9 +421,37 @@ func execC01(p *C01Plan, rc *simkit.RunCtx) {
 	if s.earlyDone != nil {
 		<-s.earlyDone
 	} else {
+		var second chan struct{}
+		if p.Shutdown2 {
+			second = make(chan struct{})
+			go func() {
+				defer close(second)
+				err := modules.Shutdown()
+				rc.H("Shutdown (second caller) err=%v", err != nil)
+				rc.Probe("second-shutdown-caller")
+				for i, m := range s.mods {
+					if m.Online() && !rc.Failed() {
+						rc.Fail("C01.online-at-shutdown-return", "module online when Shutdown returned: "+s.context(i),
+							fmt.Sprintf("module %s is online after Shutdown returned to a second caller (err=%v)", modName(i), err))
+					}
+				}
+			}()
+		}
 		s.shutdownErr = modules.Shutdown()
 		rc.H("Shutdown err=%v", s.shutdownErr != nil)
-		s.afterShutdown()
+		if second != nil {
+			// which of the two calls did the work is open: the stop counts are judged when both have returned
+			for i, m := range s.mods {
+				if m.Online() && !rc.Failed() {
+					rc.Fail("C01.online-at-shutdown-return", "module online when Shutdown returned: "+s.context(i),
+						fmt.Sprintf("module %s is online after Shutdown returned (err=%v)", modName(i), s.shutdownErr))
+				}
+			}
+			<-second
+		}
+		if !rc.Failed() {
+			s.afterShutdown()
+		}
 	}
 	if rc.Failed() {
 		return
@@ -612,7 +644,7 @@ func checkC01(p *C01Plan, rc *simkit.RunCtx) {
 func shrinkC01(p *C01Plan) []any {
 	var out []any
 	clone := func() *C01Plan {
-		q := &C01Plan{Mgmt: p.Mgmt, Anomaly: p.Anomaly, EarlyShutdown: p.EarlyShutdown}
+		q := &C01Plan{Mgmt: p.Mgmt, Anomaly: p.Anomaly, EarlyShutdown: p.EarlyShutdown, Shutdown2: p.Shutdown2}
 		for _, m := range p.Mods {
 			m2 := m
 			m2.Deps = append([]int(nil), m.Deps...)
